@@ -19,6 +19,12 @@ structure St where
   cc : Option Ctx := none
   clive : List Bool := []
   cheld : List (Option (List Byte)) := []
+  cwait : Option (List Requester.Slot) := none      -- con->_wait (handlers stay registered after a reply)
+  ccid : Nat := 0
+  canswered : List Nat := []                         -- spec: ids that already got their reply
+  -- requester side (C++ io::stream)
+  xr : Option Requester.St := none
+  xs : ReplySpec.ReqSt := {}
   deriving Inhabited
 
 def errName (r : Int) : String :=
@@ -183,7 +189,8 @@ def stepC (st : St) (w : List String) : St × String :=
     match n.toNat? with
     | some idlen =>
       if idlen > 255 then (st, "bad-op") else
-      ({ st with sin := none, cw := some idlen, cc := none, clive := [], cheld := [] }, "R ok | C - | I ret=0 | S ok ; -")
+      ({ st with sin := none, cw := some idlen, cc := none, clive := [], cheld := [], cwait := none, ccid := 0, canswered := [] },
+       "R ok | C - | I ret=0 | S ok ; -")
     | none => (st, "bad-op")
   | ["c", "req", h, a] =>
     match st.cw, parseHex h, parseActs a with
@@ -192,7 +199,21 @@ def stepC (st : St) (w : List String) : St × String :=
       let (sr, sf, sdef) := specConReq idlen st.clive.length data acts
       let id := data.take idlen
       let sTail := s!" | S {sr} ; {fmtFrames sf}"
-      if idlen ≠ 0 ∧ (data.length < idlen ∨ (id.headD 0).toNat ≥ 128) then
+      if idlen ≠ 0 ∧ data.length ≥ idlen ∧ (id.headD 0).toNat ≥ 128 then
+        -- the peer answers one of our requests: mpt_command_get(&con->_wait, id) and call, the handler stays
+        let rid : Option Nat := match MsgId.buf2id (Reply.unmark id) with
+          | .ok (v, _) => some v
+          | _ => none       -- (the code goes on with an unset id; nothing is registered under it in these runs)
+        let hit := rid.bind fun v => Requester.findActive (st.cwait.getD []) v
+        let payload := data.drop idlen
+        match hit, rid with
+        | some t, some v =>
+          let again := st.canswered.contains v
+          let sp := s!"called=0 ctx=0 id=0 acts=- ; hr{t}({toHex payload})" ++ (if again then " || called=0 ctx=0 id=0 acts=- ; -" else "")
+          ({ st with canswered := v :: st.canswered },
+           s!"R called=0 ctx=0 id=0 acts=- | C hr{t}({toHex payload}) | I next=1 disp=0 | S {sp}")
+        | _, _ => (st, s!"R called=0 ctx=0 id=0 acts=- | C - | I next=1 disp=131072 | S called=0 ctx=0 id=0 acts=- ; -")
+      else if idlen ≠ 0 ∧ data.length < idlen then
         (st, s!"R called=0 ctx=0 id=0 acts=- | C - | I next=1 disp=131072{sTail}")
       else
         let ctx := idlen ≠ 0 ∧ id.any (· ≠ 0)
@@ -234,18 +255,139 @@ def stepC (st : St) (w : List String) : St × String :=
                  cheld := if gone then st.cheld.set k none else st.cheld },
        s!"R {if ret < 0 then "refused" else "ok"} | C {fmtFrames frames} | I ret={errName ret} | S {fmtA}")
     | _, _, _ => (st, "bad-op")
+  | ["c", "await", t] =>
+    match st.cw, t.toNat? with
+    | some idlen, some tag =>
+      if tag > 1000000 then (st, "bad-op") else
+      if st.ccid ≠ 0 then (st, "R refused | C - | I ret=BadOperation | S refused ; -") else
+      match Requester.reserve st.cwait (Nat.min idlen 4) tag with
+      | some (a, i) =>
+        let fresh := i ≥ 1 ∧ ReplySpec.fits i idlen ∧ !((Requester.active (st.cwait.getD [])).any fun e => e.id == i ∧ !st.canswered.contains i)
+        let sp := if fresh then s!"ok id={i} ; -" else "ok id=<an id no unanswered request uses> ; -"
+        ({ st with cwait := some a, ccid := i, canswered := st.canswered.filter (· != i) },
+         s!"R ok id={i} | C - | I ret={(Requester.active a).length} | S {sp}")
+      | none => (st, s!"R refused | C - | I ret=BadValue | S {if idlen = 0 then "refused ; -" else "ok id=<fresh> ; -"}")
+    | _, _ => (st, "bad-op")
+  | ["c", "send", h] =>
+    match st.cw, parseHex h with
+    | some idlen, some data =>
+      if data.length > 1000 then (st, "bad-op") else
+      match (if idlen = 0 then some [] else ReplySpec.encode st.ccid idlen) with
+      | some hdr =>
+        ({ st with ccid := 0 }, s!"R ok | C frame[{toHex (hdr ++ data)}] | I ret={data.length},0 | S ok ; frame[{toHex (hdr ++ data)}]")
+      | none => (st, "R refused | C - | I ret=-1,-1 | S refused ; -")
+    | _, _ => (st, "bad-op")
   | ["c", "close"] =>
     match st.cw with
     | some _ =>
       -- mpt_connection_fini: the owner releases the reply context (nothing is pending on it)
       let c' := st.cc.map fun c => Reply.dropCtx c 0
-      ({ st with cw := none, cc := c' }, "R ok | C - | I ret=0 | S ok ; -")
+      -- mpt_command_clear: every registered handler is told that no reply will come
+      let calls := (Requester.active (st.cwait.getD [])).map fun e => s!"hr{e.tag.getD 0}(none)"
+      let ctext := if calls.isEmpty then "-" else ",".intercalate calls
+      ({ st with cw := none, cc := c', cwait := none, ccid := 0 }, s!"R ok | C {ctext} | I ret=0 | S ok ; *")
     | none => (st, "bad-op")
+  | _ => (st, "bad-op")
+
+/- ---------------------------------------------------------------- requester side (C++ io::stream) -/
+
+def fmtCall (t : Option Nat) (m : Option (List Byte)) : String :=
+  match t with
+  | some t => s!"h{t}({fmtMsg m})"
+  | none => s!"ev({fmtMsg m})"
+
+def fmtCallsX (l : List Requester.Call) : String :=
+  if l.isEmpty then "-" else ",".intercalate (l.map fun c => fmtCall c.tag c.msg)
+def fmtCallsS (l : List (Option Nat × List Byte)) : String :=
+  if l.isEmpty then "-" else ",".intercalate (l.map fun c => fmtCall c.1 (some c.2))
+
+def parseFrames (idlen : Nat) (s : String) : Option (List (List Byte)) :=
+  let parts := s.splitOn ","
+  if parts.length > 16 ∨ parts.any (· = "") then none else
+  match parts.mapM parseHex with
+  | some fs => if fs.any (fun f => f.length > 1000 ∨ f.length < idlen) then none else some fs
+  | none => none
+
+def waitingOf (s : Requester.St) : Nat := (Requester.active (s.arr.getD [])).length
+
+def stepX (st : St) (w : List String) : St × String :=
+  match w with
+  | ["xr", "open", n] =>
+    match n.toNat? with
+    | some idlen =>
+      if idlen > 255 then (st, "bad-op") else
+      ({ st with xr := some { idlen := idlen }, xs := { w := idlen } }, "R ok | C - | I ret=0 | S ok ; -")
+    | none => (st, "bad-op")
+  | "xr" :: op :: args =>
+    match st.xr with
+    | none => (st, "bad-op")
+    | some x =>
+      let sp := st.xs
+      match op, args with
+      | "idlen", [n] =>
+        match n.toNat? with
+        | some k =>
+          if k > 255 then (st, "bad-op") else
+          -- set_property("idlen", k): at most half the 8-bit range plus one
+          if k > 128 then (st, s!"R refused idlen={x.idlen} | C - | I ret=-2 | S refused idlen={sp.w} ; -")
+          else ({ st with xr := some { x with idlen := k }, xs := { sp with w := k } },
+                s!"R ok idlen={k} | C - | I ret=0 | S ok idlen={k} ; -")
+        | none => (st, "bad-op")
+      | "await", [t] =>
+        match t.toNat? with
+        | some tag =>
+          if tag > 1000000 then (st, "bad-op") else
+          match Requester.await x tag with
+          | some (x', i) =>
+            let ok := ReplySpec.freshId sp i
+            let stext := if ok then s!"ok id={i} ; -" else "ok id=<an id that is not in use and fits the header> ; -"
+            ({ st with xr := some x', xs := { sp with pending := sp.pending ++ [(i, tag)], cur := i } },
+             s!"R ok id={i} | C - | I ret=1 waiting={waitingOf x'} | S {stext}")
+          | none =>
+            -- refusal is legitimate without id header or when every id is taken
+            let stext := if sp.w = 0 ∨ sp.pending.length + 1 ≥ 2 ^ (8 * sp.w - 1) then "refused ; -" else "ok id=<fresh> ; -"
+            (st, s!"R refused | C - | I ret={if x.idlen = 0 then -1 else -4} waiting={waitingOf x} | S {stext}")
+        | none => (st, "bad-op")
+      | "send", [h] =>
+        match parseHex h with
+        | some data =>
+          if data.length > 1000 then (st, "bad-op") else
+          let (x', frame) := Requester.send x data
+          let sframe := (ReplySpec.encode sp.cur sp.w).getD [] ++ data
+          ({ st with xr := some x', xs := { sp with cur := 0 } },
+           s!"R ok | C frame[{toHex frame}] | I ret={if data.isEmpty then 0 else data.length},0 waiting={waitingOf x'} | S ok ; frame[{toHex sframe}]")
+        | none => (st, "bad-op")
+      | "abort", [] =>
+        let c := Requester.abort x
+        let alt := match sp.pending.find? (·.1 == sp.cur) with
+          | some (_, t) => s!"ok ; - || ok ; h{t}(none)"
+          | none => "ok ; -"
+        (st, s!"R ok | C {fmtCallsX c.toList} | I ret=0 waiting={waitingOf x} | S {alt}")
+      | "answer", [f] =>
+        match parseFrames x.idlen f with
+        | some fs =>
+          let (x', calls) := Requester.drain (x.inq ++ fs) x []
+          let (sp', scalls) := ReplySpec.deliverAll (sp.inq ++ fs) sp []
+          ({ st with xr := some x', xs := sp' },
+           s!"R ok | C {fmtCallsX calls} | I ret=0 rounds=0 waiting={waitingOf x'} | S ok ; {fmtCallsS scalls}")
+        | none => (st, "bad-op")
+      | "sync", [f] =>
+        match parseFrames x.idlen f with
+        | some fs =>
+          let (x', calls) := Requester.sync { x with inq := x.inq ++ fs }
+          let (sp', scalls) := ReplySpec.awaitReplies (sp.inq.length + fs.length + 1) (sp.inq ++ fs) sp []
+          ({ st with xr := some x', xs := sp' },
+           s!"R ok | C {fmtCallsX calls} | I ret=0 rounds=0 waiting={waitingOf x'} | S ok ; {fmtCallsS scalls}")
+        | none => (st, "bad-op")
+      | "close", [] =>
+        ({ st with xr := none, xs := {} }, s!"R ok | C {fmtCallsX (Requester.close x)} | I ret=0 | S ok ; *")
+      | _, _ => (st, "bad-op")
   | _ => (st, "bad-op")
 
 def step (st : St) (w : List String) : St × String :=
   if w.head? = some "s" then stepS st w else
   if w.head? = some "c" then stepC st w else
+  if w.head? = some "xr" then stepX st w else
   match w with
   | ["r", "id2buf", ids, ws] =>
     match ids.toNat?, ws.toNat? with
